@@ -186,8 +186,17 @@ func genEDILong(segs, width int) string {
 	return string(sb)
 }
 
+const miniCSVSkip = `{
+ "parser_settings": {"version": "omni.2.1", "file_format_type": "csv"},
+ "file_declaration": {"delimiter": "|", "replace_double_quotes": true, "header_row_index": 3, "data_row_index": 6,
+   "columns": [{"name": "id"}, {"name": "name", "alias": "nm"}]},
+ "transform_declarations": {"FINAL_OUTPUT": {"object": {"id": {"xpath": "id"}, "name": {"xpath": "nm"}}}}
+}`
+const miniCSVSkipInput = "junk line 1\njunk, \"line\" 2\nid|name\nnote a\nnote b\n1|alpha\n2|\"beta\n3|gamma\n"
+
 func generatedSamples() []Sample {
 	return []Sample{
+		{"gen/csv-skip-rows", "csv", []byte(miniCSVSkip), []byte(miniCSVSkipInput)},
 		{"gen/fixedlength2-rows", "fixedlength2", []byte(genFixed2Rows), []byte(genLines([]string{"H", "D", "F"}, 9, 600))},
 		{"gen/fixedlength2-headerfooter", "fixedlength2", []byte(genFixed2HF), []byte(genLines([]string{"H", "D", "F"}, 9, 600))},
 		{"gen/fixedlength-rows", "fixedlength", []byte(genFixedLegacyRows), []byte(genLines([]string{"H", "D", "F"}, 9, 600))},
